@@ -126,12 +126,18 @@ def templates(tier, seed):
                 for order in ("rmp", "pmr", "mpr", "prm", "mrp"):
                     for mdw in (False, True):
                         tds.append(dict(fam="chain", rk=rk, f1=f1, f2=f2, ref2="#m", order=order, mdw=mdw))
+    # offsets on elements that are not rendered (point, box): a lone dx or dy moves them like the pair does, and what is placed
+    # against them follows
+    for ph in ("point", "box"):
+        for d in ("dx", "dy", "dxdy", "dxy"):
+            for form in ("loc", "dir"):
+                tds.append(dict(fam="phantom-offset", ph=ph, d=d, form=form))
     # element ids are XML names: letters of any script, digits, '_', '-', '.'; an id that extends another id is a different element
     for ident in ("größe", "nœud_1", "aé", "a1", "a_b", "a-b", "Ωmega", "图形", "a"):
         for form in ("loc", "dir", "size", "scalar"):
             tds.append(dict(fam="idforms", ident=ident, form=form))
     if tier == "quick":
-        tds = sample_quota(tds, lambda t: (t["fam"], t.get("rk")), {"dir": 1000, "loc": 400, "edge": 150, "scalar": 200, "scalar1": 200, "size": 1000, "chain": 1000, "idforms": 100}, seed)
+        tds = sample_quota(tds, lambda t: (t["fam"], t.get("rk")), {"dir": 1000, "loc": 400, "edge": 150, "scalar": 200, "scalar1": 200, "size": 1000, "chain": 1000, "idforms": 100, "phantom-offset": 100}, seed)
     return tds
 
 
@@ -435,6 +441,29 @@ def build(td, wrong=False):
         doc = "<svg>" + rm + pm + "</svg>"
         # sizes may come out negative for negative deltas: both sides agree symbolically, nothing else is asserted
         return Template(f"size/{td['rk']}/{form}/{pk}", doc, vars_, std_check(obls, wrong), family="relative-size", role=f"C09/size/{form.split('-')[0]}", cap=12)
+    if fam == "phantom-offset":
+        ph, d, form = td["ph"], td["d"], td["form"]
+        vars_ = [(7, *POS), (-4, *POS), (20, *SZI), (10, *SZI), (3, *DLT), (-5, *DLT)]
+        dx, dy = ("v4" if "x" in d else "0.0"), ("v5" if (d in ("dy", "dxdy", "dxy")) else "0.0")
+        if d == "dxy":
+            dx = "v4"
+        da = {"dx": 'dx="[[4]]"', "dy": 'dy="[[5]]"', "dxdy": 'dx="[[4]]" dy="[[5]]"', "dxy": 'dxy="[[4]] [[5]]"'}[d]
+        a = '<rect id="a" xy="[[0]] [[1]]" wh="[[2]] [[3]]"/>'
+        ab = G.Box("v0", "v1", plus("v0", "v2"), plus("v1", "v3"))
+        if ph == "point":
+            pm = f'<point id="q" xy="#a@br" {da}/>'
+            qb = G.Box(plus(ab.x2, dx), plus(ab.y2, dy), plus(ab.x2, dx), plus(ab.y2, dy))
+        else:
+            pm = f'<box id="q" xy="#a|h 5" wh="10 6" {da}/>'
+            qx, qy = plus(plus(ab.x2, "5.0"), dx), plus(minus(ab.cy, "3.0"), dy)
+            qb = G.Box(qx, qy, plus(qx, "10.0"), plus(qy, "6.0"))
+        p = '<rect id="p" xy="#q@br" wh="3 4"/>' if form == "loc" else '<rect id="p" xy="#q|v 2" wh="3 4"/>'
+
+        def obls_ph(o, pb):
+            if form == "loc":
+                return [Obl("x1", ne(pb.x1, plus(qb.x2, W))), Obl("y1", ne(pb.y1, qb.y2))]
+            return [Obl("x1", ne(pb.x1, plus(minus(qb.cx, "1.5"), W))), Obl("y1", ne(pb.y1, plus(qb.y2, "2.0")))]
+        return Template(f"phantom-offset/{ph}/{d}/{form}", "<svg>" + a + pm + p + "</svg>", vars_, std_check(obls_ph, wrong), family="phantom-offset", role="C09/phantom-offset", cap=4)
     if fam == "idforms":
         ident, form = td["ident"], td["form"]
         vars_ = [(7, *POS), (-4, *POS), (20, *SZI), (10, *SZI)]
